@@ -45,6 +45,10 @@ func NewSparseConstInt64Vector(indices []int, values []int64, n int) SparseConst
   if len(indices) != len(values) {
     panic("invalid number of indices")
   }
+  // work on copies: the caller's slices are neither reordered nor shared
+  // with the vector (the Unsafe constructor above is the one that shares)
+  indices = append([]int{}, indices...)
+  values = append([]int64{}, values...)
   sort.Sort(sortIntConstInt64{indices, values})
   r := nilSparseConstInt64Vector(n)
   r.indices = indices[0:0]
